@@ -436,14 +436,21 @@ pub fn gen_reads(r: &mut Rng, k: usize) -> (Vec<Vec<u8>>, &'static str) {
     }
 }
 
-pub fn gen_input(r: &mut Rng, ks: &[usize]) -> GInput {
+pub fn gen_input(r: &mut Rng, ks: &[usize], allow_long: bool) -> GInput {
     // small K much more often: that is where repeats / palindromes / hairpins are dense
     let k = if r.chance(2, 3) {
         *r.pick(&[4usize, 5, 6])
     } else {
         *r.pick(ks)
     };
-    let (mut reads, fam) = gen_reads(r, k);
+    let (mut reads, fam) = if allow_long && r.chance(1, 10) {
+        // one long random read at a large K: nodes of 256 bases and more (renderings switch to a summary form there)
+        let len = r.range(270, 600);
+        (vec![r.dna(len, &[0, 1, 2, 3])], "long-read")
+    } else {
+        gen_reads(r, k)
+    };
+    let k = if fam == "long-read" { *r.pick(&[16usize, 20, 31, 32]) } else { k };
     let thr = if fam == "strand-trap" { 2 } else { *r.pick(&[1usize, 1, 1, 2, 2, 3]) };
     if thr > 1 && fam != "strand-trap" && r.chance(2, 3) {
         // raise coverage so that something survives the threshold
